@@ -15,9 +15,16 @@ LEVEL = "proof"
 MATCHERS: Dict[str, Any] = {}
 TRUSTED = [
     "Lean 4.33.0 kernel; axioms propext / Classical.choice / Quot.sound only (audited by #print axioms)",
-    "harness/valid_corr.py: materialises abstract values as real Python objects, canonicalises read-backs",
-    "ctypes: field / array-element setters as modelled by `elemStore` / `storeMany` (element-wise, may stop half way); "
-    "float32 rounding of the C cast (model `narrow`, compared bit for bit; nearest-ness checked by the Spec on every case)",
+    "harness/valid_corr.py: materialises abstract values as real Python objects, canonicalises read-backs, walks programs "
+    "(real `with` / try / except) and reports the lexical disable depth of every executed assignment",
+    "ctypes: field / array-element setters as modelled by `elemStore` / `storeMany` (element-wise, may stop half way); offset "
+    "arithmetic for nested structs / struct-array elements (the whole message buffer is compared: projection `message`)",
+    "float rounding: `roundMag` is opaque; the float theorems rest on the named hypotheses `RoundHyp` "
+    "(Proofs/ValidatorsFloat.lean: nearest32/64, overflow32/64, widenExact, intExact, bigIntNarrow) - not proved, evaluated "
+    "by the driver at the operands of every generated float case (`round_hyp_instances_evaluated`) and bit patterns "
+    "compared with ctypes",
+    "tyWF / valWF (Spec/ValidatorsExt.lean): a `bytes` consists of bytes, a ctypes / struct instance has the size of its "
+    "class, a double has 64 bits, String(n) has n > 1, an array descriptor class goes with its kind of element validator",
 ]
 
 FILLS = [b"", bytes([0x5A, 0x21, 0x7E, 0x33, 0x41, 0x62, 0x07])]
@@ -141,6 +148,22 @@ def gen_cases(seed: int, deep: bool) -> List[Dict[str, Any]]:
                         add(t, key, ("S", VC.good_elem(rng, vk)), tag="D")
                     else:
                         add(t, key, ("L", "gen", good), tag="D")
+    # D2. slice shapes of struct arrays (top level and inside a nested struct-array element) and of a nested int array
+    pts2 = [None, -5, -4, -3, -2, -1, 0, 1, 2, 3, 4, 5]
+    for t in [a for a in arrs if a["field"] in ("sa", "ai4", "a_u64", "ad4") and (a["cls"] == "O" or a["field"] in ("sa", "a_u64", "ad4"))]:
+        _, cls, vk, n = t["fty"]
+        for a in pts2:
+            for b in pts2:
+                for st in (None, 1, 2, -1, -2, 3, -3, 0):
+                    if not deep and rng.random() < 0.5:
+                        continue
+                    ln = len(range(*slice(a, b, st).indices(n))) if st != 0 else rng.randrange(0, n + 1)
+                    good = [VC.good_elem(rng, vk) for _ in range(ln)]
+                    add(t, ("slice", a, b, st), VC.seq_value(rng, vk, good, kind=rng.choice(["list", "tuple", "carray"])), tag="D2")
+                    if ln > 0 and rng.random() < 0.4:
+                        xs = list(good)
+                        xs[rng.randrange(ln)] = rng.choice(VC.bad_elems(vk))
+                        add(t, ("slice", a, b, st), ("L", "list", xs), tag="D2")
     # E. wrong lengths, strings / bytes as sequences
     for t in arrs:
         _, cls, vk, n = t["fty"]
@@ -175,6 +198,15 @@ def gen_cases(seed: int, deep: bool) -> List[Dict[str, Any]]:
                 raw = b"".join(__import__("struct").pack("<f", rng.choice([1.5, -2.0, 0.0, 3e38, 1e-40])) for _ in range(dn))
             add(t, ("whole",), ("A", dcls, dvk, dn, raw), tag="F")
             add(t, ("slice", None, None, None), ("A", dcls, dvk, dn, raw), tag="F")
+            if dvk in VC.FKS:
+                # float arrays of another message holding inf / NaN / subnormals (copied as they are by `msg.a = other.a`,
+                # checked element by element when they go through a slice)
+                pk = "<f" if dvk == "f32" else "<d"
+                specials = [float("inf"), -float("inf"), float("nan"), 1e-45, -0.0, 3.0e38, 2.5]
+                raw2 = b"".join(__import__("struct").pack(pk, rng.choice(specials)) for _ in range(dn))
+                add(t, ("whole",), ("A", dcls, dvk, dn, raw2), tag="F")
+                add(t, ("slice", None, None, None), ("A", dcls, dvk, dn, raw2), tag="F")
+                add(t, ("slice", 0, dn, 1), ("A", dcls, dvk, dn, raw2), tag="F")
             add(t, ("whole",), ("A", dcls, dvk, dn, None), tag="F")
         add(t, ("whole",), ("A", cls, vk, n, None), tag="F")
         add(t, ("whole",), ("A", cls, vk, n + 1, None), tag="F")
@@ -276,6 +308,184 @@ def gen_cases(seed: int, deep: bool) -> List[Dict[str, Any]]:
     return cases
 
 
+# ----------------------------------------------------------------------------------------------------------
+# programs: nested disable blocks, try/except, raise, views bound anywhere (model: Stmt / execList)
+# ----------------------------------------------------------------------------------------------------------
+
+def _prog_world(W):
+    """per top class: assignable fields [(path, field, fty)] and bindable structs [path]"""
+    out = {}
+    for cname in ("M", "O"):
+        top = getattr(W, cname)
+        fields, structs = [], []
+
+        def walk(cls, path, depth):
+            for name, fty, _ in W.fields(cls):
+                fields.append((list(path), name, fty))
+                if depth >= 2:
+                    continue
+                if fty[0] == "strct":
+                    structs.append(list(path) + [name])
+                    walk(W.structs[fty[1]], list(path) + [name], depth + 1)
+                elif fty[0] == "arr" and isinstance(fty[2], tuple):
+                    for k in sorted({0, fty[3] - 1}):
+                        structs.append(list(path) + [name, k])
+                        walk(W.structs[fty[2][1]], list(path) + [name, k], depth + 1)
+
+        walk(top, [], 0)
+        out[cname] = (fields, structs)
+    return out
+
+
+def _rand_rhs(rng, fty, allow_whole: bool):
+    """(key, value) for one assignment to a field of descriptor `fty`: valid about 60% of the time"""
+    good = rng.random() < 0.6
+    if fty[0] != "arr":
+        if fty[0] == "strct":
+            pool = [("t", fty[1], bytes(rng.randrange(128) for _ in range(fty[2])))] if good else \
+                   [("t", 2 if fty[1] == 1 else 1, bytes(8)), ("o", "none"), ("i", 0)]
+        elif good and fty[0] in ("int", "byte"):
+            pool = [VC.good_elem(rng, fty[1] if fty[0] == "int" else "byte")]
+        elif good and fty[0] == "flt":
+            pool = [VC.good_elem(rng, fty[1])]
+        elif good and fty[0] in ("str", "char"):
+            n = 1 if fty[0] == "char" else fty[1] - 1
+            pool = [("s", [rng.randrange(32, 127) for _ in range(rng.randint(1 if fty[0] == "char" else 0, n))])]
+        else:
+            # (`.other` stands for "no number at all": a Fraction has `__float__`, which the bare ctypes float setter -
+            # reached inside a disable block - would accept)
+            pool = [x for x in VC.scalar_pool(fty) if not (fty[0] == "flt" and x == ("o", "frac"))]
+        return ("whole",), ("S", rng.choice(pool))
+    _, cls, vk, n = fty
+    r = rng.random()
+    if r < 0.45 or (r < 0.6 and not allow_whole):
+        key = ("idx", rng.randrange(-n, n) if good else rng.randrange(-n - 1, n + 1))
+        s = VC.good_elem(rng, vk) if good else rng.choice(VC.bad_elems(vk))
+        if s == ("o", "nested"):
+            s = ("o", "obj")
+        return key, ("S", s)
+    if r < 0.6:
+        key = ("whole",)
+        ln = n
+    else:
+        key = ("slice", rng.choice([None] + list(range(-n - 1, n + 2))), rng.choice([None] + list(range(-n - 1, n + 2))),
+               rng.choice([None, None, 1, 2, -1, -2, 3]))
+        ln = len(range(*slice(*key[1:]).indices(n)))
+    xs = [VC.good_elem(rng, vk) for _ in range(ln)]
+    if not good:
+        if ln and rng.random() < 0.7:
+            xs[rng.randrange(ln)] = rng.choice(VC.bad_elems(vk))
+        else:
+            xs = xs + [VC.good_elem(rng, vk)]
+    return key, VC.seq_value(rng, vk, xs, kind=rng.choice(["list", "tuple", "carray"]))
+
+
+def gen_programs(seed: int, deep: bool) -> List[Dict[str, Any]]:
+    W = VC.world()
+    rng = C.rng_for(seed, "C09prog" + ("deep" if deep else ""))
+    PW = _prog_world(W)
+    progs = []
+    for _ in range(3000 if deep else 500):
+        cname = rng.choice(["M", "O"])
+        fields, structs = PW[cname]
+        arrays = [f for f in fields if f[2][0] == "arr"]
+        bound: Dict[int, Any] = {}           # variables a bind statement exists for (it may not have run: NameError)
+        counter = [0]
+
+        def block(depth_left: int) -> List[Any]:
+            stmts: List[Any] = []
+            for _ in range(rng.randint(1, 5)):
+                r = rng.random()
+                if r < 0.18:
+                    i = counter[0]
+                    counter[0] += 1
+                    if rng.random() < 0.6:
+                        path, name, fty = rng.choice(arrays)
+                        obj = {"path": path, "field": name, "fty": fty}
+                    else:
+                        obj = {"path": rng.choice(structs), "field": None, "fty": None}
+                    bound[i] = obj
+                    stmts.append(("bind", i, obj))
+                elif r < 0.68:
+                    if bound and rng.random() < 0.6:
+                        i = rng.choice(sorted(bound))
+                        obj = bound[i]
+                        if obj["field"] is not None:            # a bound array object: view[key] = value
+                            tgt, sub = obj, None
+                            key, val = _rand_rhs(rng, obj["fty"], allow_whole=False)
+                        else:                                   # a bound struct: view.f = value / view.f[key] = value
+                            sub_fields = [f for f in fields if f[0] == obj["path"]]
+                            path, name, fty = rng.choice(sub_fields)
+                            tgt, sub = {"path": path, "field": name, "fty": fty}, name
+                            key, val = _rand_rhs(rng, fty, allow_whole=True)
+                        a = ("assign", i, sub, tgt, key, val)
+                    else:
+                        path, name, fty = rng.choice(fields)
+                        key, val = _rand_rhs(rng, fty, allow_whole=True)
+                        a = ("assign", "f", None, {"path": path, "field": name, "fty": fty}, key, val)
+                    stmts.append(("try", [a]) if rng.random() < 0.55 else a)
+                elif r < 0.86 and depth_left > 0:
+                    stmts.append(("block", rng.random() < 0.25, block(depth_left - 1)))
+                elif r < 0.94 and depth_left > 0:
+                    stmts.append(("try", block(depth_left - 1)))
+                elif r < 0.97:
+                    stmts.append(("raise",))
+            return stmts
+
+        progs.append({"cls": cname, "fill": bytes(rng.randrange(256) for _ in range(rng.choice([0, 7, 11]))),
+                      "stmts": block(4 if deep else 3)})
+    # the shape of the seeded change, literally: a view bound inside a disable block, used after it
+    for cname in ("M",):
+        fields, _ = PW[cname]
+        for path, name, fty in [f for f in fields if f[2][0] == "arr" and not f[0]]:
+            _, cls, vk, n = fty
+            bad = next(b for b in VC.bad_elems(vk) if b != ("o", "nested"))
+            obj = {"path": path, "field": name, "fty": fty}
+            progs.append({"cls": cname, "fill": b"", "stmts": [
+                ("block", False, [("bind", 0, obj), ("assign", 0, None, obj, ("idx", 0), ("S", VC.good_elem(rng, vk)))]),
+                ("try", [("assign", 0, None, obj, ("idx", 0), ("S", bad))]),
+                ("bind", 1, obj),
+                ("block", False, [("block", True, [("try", [("raise",)])]),
+                                  ("assign", 1, None, obj, ("idx", n - 1), ("S", bad)) if vk not in VC.FKS and not isinstance(vk, tuple)
+                                  else ("assign", 1, None, obj, ("idx", n - 1), ("S", VC.good_elem(rng, vk)))]),
+                ("try", [("block", False, [("raise",)])]),
+                ("try", [("assign", 1, None, obj, ("slice", None, None, -1), ("L", "list", [bad] * n))]),
+                ("assign", "f", None, obj, ("idx", 0), ("S", VC.good_elem(rng, vk)))]})
+    return progs
+
+
+def _feed_progs(res: C.Result, deep: bool, extra=()):
+    progs = list(extra) + gen_programs(res.seed, deep)
+    lines: List[str] = []
+    meta = {}
+    tot = {"assign": 0, "outside": 0, "raised": 0, "via_view": 0, "ended_by_exception": 0, "max_depth": 0}
+    for i, prog in enumerate(progs):
+        cid = f"p{i}"
+        blk, info = VC.run_prog(cid, prog)
+        lines += blk
+        meta[cid] = (prog, blk)
+        for k in ("assign", "outside", "raised", "via_view"):
+            tot[k] += info[k]
+        tot["ended_by_exception"] += bool(info.get("ended_by_exception"))
+        tot["max_depth"] = max(tot["max_depth"], info["max_depth"])
+    out = C.parse_driver(C.run_driver("validators", lines))
+    res.extra["programs"] = dict(tot, programs=len(progs))
+    for cid, (prog, blk) in meta.items():
+        r = out.get(cid)
+        if r is None:
+            raise C.MachineryError(f"driver gave no answer for program {cid}")
+        res.note_case(("prog", repr(prog["stmts"]), prog["cls"], bytes(prog["fill"])), nontrivial=True)
+        res.traces_validated += 1
+        rc = {"prog": _pack(prog), "protocol": [l if len(l) < 400 else l[:400] + "..." for l in blk]}
+        for d in r["corr"]:
+            res.corr_diffs.append({"name": "corr:M4/program", "diff": d, "case": rc})
+        for v in r["props"].get(PROP, []):
+            if v.startswith("fail"):
+                res.failures.append(C.Failure(clause=v[5:].split(" ")[0], case=rc, detail=v[5:]))
+    if progs:
+        res.sample({"protocol": [l if len(l) < 300 else l[:300] + "..." for l in meta["p%d" % (len(progs) // 3)][1]]})
+
+
 def _pack(case: Dict[str, Any]) -> Dict[str, Any]:
     return {"pickle": base64.b64encode(pickle.dumps(case)).decode(),
             "text": {k: repr(v) for k, v in case.items() if k != "fill"}}
@@ -304,6 +514,8 @@ def _feed(res: C.Result, cases: List[Dict[str, Any]], start: int):
         res.note_case((case["cls"], tuple(map(str, case["path"])), case["field"], case["key"], repr(case["val"]), case["en"],
                        bytes(case["fill"] or b"")), nontrivial=True)
         res.traces_validated += 1
+        for h in r["props"].get("HYPS", []):
+            ex["round_hyp_instances_evaluated"] = ex.get("round_hyp_instances_evaluated", 0) + int(h)
         ex.setdefault("generator", {}).setdefault(case["gen"], 0)
         ex["generator"][case["gen"]] += 1
         ex.setdefault("outcomes", {}).setdefault(info["outcome"], 0)
@@ -317,14 +529,18 @@ def _feed(res: C.Result, cases: List[Dict[str, Any]], start: int):
             ex["disabled_partial_writes_seen"] = ex.get("disabled_partial_writes_seen", 0) + 1
         rc = {"case": _pack(case), "protocol": blk}
         for d in r["corr"]:
-            res.corr_diffs.append({"name": "corr:M4/setField", "diff": d, "case": rc})
+            proj = ("readField" if "[readField]" in d else "message" if "[message]" in d else "canon" if "[canon]" in d
+                    else "roundHyp" if "[roundHyp]" in d else "setField")
+            ex.setdefault("corr_diffs_by_projection", {}).setdefault(proj, 0)
+            ex["corr_diffs_by_projection"][proj] += 1
+            res.corr_diffs.append({"name": "corr:M4/" + proj, "diff": d, "case": rc})
         for v in r["props"].get(PROP, []):
             if v.startswith("fail"):
                 cl = v[5:]
                 res.failures.append(C.Failure(clause=cl, case=rc, detail=f"{cl}: {' | '.join(blk[1:9])}",
                                               finding=C.match_finding(PROP, cl, case, MATCHERS)))
-        if case["gen"] in ("C", "D", "F") and len(res.samples) < 6 and (start + int(cid[1:])) % 997 == 0:
-            res.sample({"protocol": blk, "verdicts": r["props"]})
+        if case["gen"] in ("C", "D", "F") and len(res.samples) < 4 and (start + int(cid[1:])) % 997 == 0:
+            res.sample({"protocol": [l if len(l) < 300 else l[:300] + "..." for l in blk], "verdicts": r["props"]})
     return out
 
 
@@ -358,32 +574,40 @@ def _feed_ctx(res: C.Result, deep: bool, extra=()):
 def _corpus():
     """minimised past failures (corpus/C09/*.json), replayed first on every run"""
     import json
-    cs, ctx = [], []
+    cs, ctx, progs = [], [], []
     d = C.CORPUS / PROP
     for f in sorted(d.glob("*.json")) if d.exists() else []:
         body = json.loads(f.read_text())["case"]
         if "ctx" in body:
             ctx.append(body["ctx"])
+        elif "prog" in body:
+            progs.append(pickle.loads(base64.b64decode(body["prog"]["pickle"])))
         else:
             cs.append(pickle.loads(base64.b64decode(body["case"]["pickle"])))
-    return cs, ctx
+    return cs, ctx, progs
 
 
 def run(res: C.Result, deep: bool):
-    ccases, cctx = _corpus()
-    res.extra["corpus_cases"] = len(ccases) + len(cctx)
+    ccases, cctx, cprogs = _corpus()
+    res.extra["corpus_cases"] = len(ccases) + len(cctx) + len(cprogs)
     cases = ccases + gen_cases(res.seed, deep)
     res.rule = ("A: every scalar field (top level and through nested structs / struct arrays) x boundary and wrong-type pool; "
                 "B: every index -n-1..n of every array x element pool; C: one bad element at every position of arrays of "
                 "length 1..6 (floats also surrounded by / next to NaN); D: every slice (start, stop, step) shape of three "
-                "6-arrays with right / wrong length and bad elements; E: wrong lengths, str/bytes/generators/ctypes arrays as "
-                "sequences; F: other messages' array objects (bound / unbound, same / other shape); G: the same stores with "
+                "6-arrays with right / wrong length and bad elements; D2: slice shapes of struct arrays, of arrays inside nested "
+                "structs / struct-array elements; E: wrong lengths, str/bytes/generators/ctypes arrays as "
+                "sequences; F: other messages' array objects (bound / unbound, same / other shape, float arrays holding inf / NaN / subnormals); G: the same stores with "
                 "validation disabled (correspondence only); H: seeded random over the synthetic classes and every class of "
-                "pyrtma.core_defs; CTX: every well-nested enter/exit(normal|exception) history up to %d events. "
+                "pyrtma.core_defs; CTX: every well-nested enter/exit(normal|exception) history up to %d events; PROG: seeded "
+                "random programs (nested `with disable_message_validation(ignore)`, try/except, raise, array objects / "
+                "sub-structures / struct-array elements bound at any point, assignments through them or through fresh "
+                "attribute access, valid and invalid values) plus the literal shape 'view bound inside a block, used after it' "
+                "for every array field. "
                 "distinct by (class, path, field, key, value, enabled, prefill)" % (8 if deep else 6))
     for i in range(0, len(cases), 20000):
         _feed(res, cases[i:i + 20000], i)
     _feed_ctx(res, deep, cctx)
+    _feed_progs(res, deep, cprogs)
 
 
 def replay(body: Dict[str, Any]) -> int:
@@ -393,6 +617,8 @@ def replay(body: Dict[str, Any]) -> int:
         return 2
     if "ctx" in case:
         blk = VC.run_ctx("replay", case["ctx"])
+    elif "prog" in case:
+        blk, _ = VC.run_prog("replay", pickle.loads(base64.b64decode(case["prog"]["pickle"])))
     else:
         blk, _ = VC.run_case("replay", pickle.loads(base64.b64decode(case["case"]["pickle"])))
     out = C.run_driver("validators", blk)
